@@ -197,7 +197,11 @@ def diagnostic_contract(en: E.Engine):
   en.assume(z3.And(kk >= 0, kk < N - 1))
   en.ensure('sigma_dot_explicit[k] == sigma_{k+1/2} sum_j G[j] dsigma[j] - sum_{j<=k} G[j] dsigma[j] with G = u.grad(ln ps) (sigma_{k+1/2} = sum_{j<=k} dsigma[j])',
             aux.sigma_dot_explicit.get(kk) == CSs(kk + 1) * CG(N) - CG(kk + 1))
-  en.ensure('sigma_dot_full[k]: the same with G = divergence + u.grad(ln ps)', aux.sigma_dot_full.get(kk) == CSs(kk + 1) * CF(N) - CF(kk + 1))
+  # instances of the additivity lemma CS_{a+b} = CS_a + CS_b (proved by induction in its own clause): a variant of the code that integrates the two
+  # summands separately is then still recognised
+  CD = ghost(en, lambda j: DIV(j) * d_(j))
+  add = [CF(N) == CD(N) + CG(N), CF(kk + 1) == CD(kk + 1) + CG(kk + 1)]
+  en.ensure('sigma_dot_full[k]: the same with G = divergence + u.grad(ln ps)', aux.sigma_dot_full.get(kk) == CSs(kk + 1) * CF(N) - CF(kk + 1), extra=add)
   en.ensure('the nodal divergence / temperature columns are passed through', z3.And(aux.divergence.get(k) == DIV(k), aux.temperature_variation.get(k) == TV(k)))
 
 
@@ -631,6 +635,14 @@ def replay_column(w):
 
 
 def clauses():
+  out = _clauses()
+  for cl in out.values():
+    for c in cl:
+      c.refutation_needs_replay = True        # ghost sums: incomplete theory for the solver (applies once a native replay is attached)
+  return out
+
+
+def _clauses():
   rc = lambda c, n=2: (lambda ctx: run_contract(c, min_obligations=n, setup=_setup, timeout_ms=120000, max_paths=400))
   return {
       'C05': [
